@@ -166,5 +166,18 @@ for _ in range(300):
     ok(int(argmax(array(row))) == min(i for i in range(4) if row[i] == sorted(row)[-1]), "argmax: first maximum")
 for k_ in range(0, 32):
     ok(int(log(4 ** k_) / log(4)) == k_, f"int(log(4**{k_}) / log(4)) == {k_}")
+# CPython's iteration order of a set that is a block of four consecutive ints from a multiple of 4 (adjacency_matrix_to_accessor compares
+# list(set(a) | set(b)) with the ascending list b): equal exactly when a is a subset of b
+rng = random.Random(14)
+blocks = list(range(0, 4096)) + [rng.randrange(0, 4 ** 11) for _ in range(3000)]
+for m_ in blocks:
+    b = [4 * m_ + j for j in range(4)]
+    for mask_ in range(16):
+        a = [b[j] for j in range(4) if mask_ >> j & 1]
+        rng.shuffle(a)
+        ok(list(set(a) | set(b)) == b, f"list(set({a}) | set({b})) == b")
+    extra = rng.randrange(0, 4 ** 11)
+    if extra not in b:
+        ok(list(set([extra, b[1]]) | set(b)) != b, f"a foreign element makes the union differ ({extra}, block {m_})")
 print(json.dumps({"checks": checks, "mismatches": bad[:10]}))
 sys.exit(1 if bad else 0)
